@@ -48,10 +48,18 @@ func waitGroupBody(s *simrt.Sim) {
 	s.Tick()
 	s.Tick()
 	triggers := 0
+	r := newReach(s)
 	wg.OnTrigger(func() {
 		triggers++
 		step := s.Tick()
 		dc := curCall[simrt.Current()]
+		if dc != nil {
+			// an Add triggers when its counter correction is the decrement that reaches zero
+			r.hit("triggered-inside-add", dc.add)
+			for _, o := range calls {
+				r.hit("triggered-while-other-call-in-flight", o != dc && o.contains(step))
+			}
+		}
 		if dc == nil {
 			s.Fail("wait-group", "triggered-outside-add-or-done", "the wait group triggered at step %d on a task that is not inside an Add or Done call", step)
 		}
@@ -102,7 +110,9 @@ func waitGroupBody(s *simrt.Sim) {
 				snap := make([]int, n+1)
 				for _, e := range es {
 					ok[e], snap[e] = doneInFlight[e] == 0, doneSeq[e]
+					r.hit("add-of-definitely-pending-element", pendingSince[e] != 0)
 				}
+				r.hit("add-after-group-triggered", triggers > 0)
 				c.inv = s.Tick()
 				s.Logf("Add%v", es)
 				curCall[simrt.Current()] = c
@@ -173,6 +183,17 @@ func waitGroupBody(s *simrt.Sim) {
 	triggered := wg.WasTriggered()
 	pend := sortedInts(wg.PendingElements().ToSlice())
 	s.Logf("final triggered=%v pending=%v", triggered, pend)
+	for i, a := range calls {
+		for _, b := range calls[i+1:] {
+			if !intersects(a.elems, b.elems) || !a.overlaps(&b.call) {
+				continue
+			}
+			r.hit("done-overlaps-add-of-same-element", a.add != b.add)
+			r.hit("dones-of-same-element-overlap", !a.add && !b.add)
+			r.hit("adds-of-same-element-overlap", a.add && b.add)
+		}
+	}
+	r.hit("waiter-blocked-at-quiescence", hasWaiter && !waiterReturned)
 	if waiterReturned && !triggered {
 		s.Fail("wait-group", "wait-returned-without-trigger", "Wait returned but the group has not triggered")
 	}
@@ -194,6 +215,9 @@ func waitGroupBody(s *simrt.Sim) {
 			}
 		}
 		anyAdded = anyAdded || added
+		// an Add and a Done of e overlapped last: neither of the two final oracles on e applies, either outcome is accepted
+		r.hit("final-pending-state-of-element-left-open", added && pendingSince[e] == 0 && lastDoneInv != 0 && lastDoneInv <= lastAddRet)
+		r.hit("done-of-element-never-added", !added && lastDoneInv != 0)
 		if pendingSince[e] != 0 && !hasInt(pend, e) {
 			s.Fail("wait-group", "pending-element-lost", "element %d was added (Add returned at step %d) and never marked done, but PendingElements = %v", e, pendingSince[e], pend)
 		}
@@ -243,6 +267,16 @@ func evictionBody(s *simrt.Sim) {
 	}
 	var handles []*handle
 	var evicted []int
+	// reach probes only: the Evict calls (s.Step() stamps: the step counter is not advanced) with the slots whose
+	// handlers they ran
+	type evictCall struct {
+		call
+		slot  int
+		fired []int
+	}
+	var evicts []*evictCall
+	curEvict := map[*simrt.Task]*evictCall{}
+	r := newReach(s)
 	get := func(slot int) {
 		h := &handle{slot: slot}
 		handles = append(handles, h)
@@ -253,6 +287,11 @@ func evictionBody(s *simrt.Sim) {
 		if !h.isShare {
 			h.unsub = h.ev.OnTrigger(func() {
 				h.fired++
+				if ec := curEvict[simrt.Current()]; ec != nil && !hasInt(ec.fired, slot) {
+					ec.fired = append(ec.fired, slot)
+				}
+				// the handler ran on the subscribing task: the event had been triggered before OnTrigger was called
+				r.hit("slot-evicted-between-eviction-event-and-subscription", h.got.ret == 0 && curEvict[simrt.Current()] == nil)
 				s.Logf("event of slot %d fired", slot)
 				simrt.Yield()
 			})
@@ -276,8 +315,18 @@ func evictionBody(s *simrt.Sim) {
 			for j, slot := range ops {
 				yields(pres[j])
 				evicted = append(evicted, slot)
+				ec := &evictCall{slot: slot}
+				for _, o := range evicts {
+					r.hit("evict-of-already-evicted-slot", o.ret != 0 && slot <= o.slot)
+				}
+				evicts = append(evicts, ec)
+				curEvict[simrt.Current()] = ec
+				ec.inv = s.Step()
 				s.Logf("Evict(%d)", slot)
 				es.Evict(slot)
+				ec.ret = s.Step()
+				delete(curEvict, simrt.Current())
+				r.hit("evict-triggered-events-of-several-slots", len(ec.fired) >= 2)
 				s.Logf("Evict(%d) returned", slot)
 			}
 		})
@@ -300,6 +349,20 @@ func evictionBody(s *simrt.Sim) {
 	}
 	left := s.Quiesce()
 	hx.Stuck(s, "deadlock", left, nil)
+	for i, a := range evicts {
+		for _, b := range evicts[i+1:] {
+			r.hit("evict-calls-overlap", a.overlaps(&b.call))
+		}
+		for _, h := range handles {
+			r.hit("eviction-event-requested-during-evict-covering-the-slot", h.slot <= a.slot && a.overlaps(&h.got))
+		}
+	}
+	for i, h := range handles {
+		r.hit("eviction-event-of-evicted-slot-requested", h.isShare)
+		for _, o := range handles[i+1:] {
+			r.hit("same-event-handed-out-twice", !h.isShare && h.ev == o.ev)
+		}
+	}
 	last, any := 0, len(evicted) > 0
 	for _, e := range evicted {
 		if e > last {
@@ -311,6 +374,7 @@ func evictionBody(s *simrt.Sim) {
 	}
 	for _, h := range handles {
 		want := any && h.slot <= last
+		r.hit("event-of-slot-never-evicted", !want)
 		got := h.ev.WasTriggered()
 		if got != want {
 			sig := "event-of-evicted-slot-not-triggered"
